@@ -323,6 +323,25 @@ def random_doc(rng, max_nodes=40, anim_styles=False, space=False, ruby=True, rub
       anim[k] = anim[k] + [dict(shared)]
       if b[k] == NONE_T and rng.random() < 0.7:
         b[k] = 2 * rng.randrange(1, (4 * den if not fine else 12) + 1)
+  if rng.random() < 0.15:
+    # siblings that begin together and end one after the other, each with the same (value-equal) display step reaching beyond
+    # the end of the first: each step is clipped by the end of the element that carries it
+    groups = {}
+    for k in range(len(kind)):
+      if kind[k] in ("p", "span", "div"):
+        groups.setdefault(parent[k], []).append(k)
+    groups = [g for g in groups.values() if len(g) >= 2]
+    if groups:
+      g = rng.choice(groups)[:3]
+      u = den if not fine else 3
+      bb = 2 * rng.randrange(0, 2 * u + 1)
+      first_end = bb + 2 * rng.randrange(1, 2 * u + 1)
+      step = {"b": 0 if rng.random() < 0.5 else NONE_T, "e": first_end - bb + 2 * rng.randrange(1, 2 * u + 1), "v": "none"}
+      for j, k in enumerate(g):
+        b[k] = bb
+        e[k] = first_end + 2 * j * rng.randrange(1, u + 1)
+        anim[k] = [dict(step)]
+        disp[k] = ""
   ad = {"n": len(kind), "kind": kind, "parent": parent, "b": b, "e": e, "reg": reg, "disp": disp, "anim": anim, "txt": txt,
         "nr": nr,
         "rb": [t_opt(0.7) for _ in range(nr)], "re": [t_opt(0.7) for _ in range(nr)],
